@@ -324,6 +324,16 @@ def coq_eval_cases(pid, header, case_terms, check_fn, shard=300, tag=""):
     `failing check_fn cases` inside Coq with vm_compute.  Returns
     (failing_indices, errors)."""
     os.makedirs(WORK, exist_ok=True)
+    # case files of runs that were killed before they could tidy up
+    now = time.time()
+    for fn in os.listdir(WORK):
+        if fn.startswith(("Cases_", "Assump_")):
+            fp = os.path.join(WORK, fn)
+            try:
+                if now - os.path.getmtime(fp) > 4 * 3600:
+                    os.remove(fp)
+            except OSError:
+                pass
     shards = [case_terms[i:i + shard] for i in range(0, len(case_terms), shard)]
     files = []
     for k, sh_cases in enumerate(shards):
